@@ -1,7 +1,8 @@
 from _common import COMMON_NOTE
 
 META = {'title': 'Emulation is deterministic and independent of how the host drives it',
- 'lean_modules': ['ZxVerif.Props.C16', 'ZxVerif.Props.C16Sys'],
+ 'lean_modules': ['ZxVerif.Props.C16', 'ZxVerif.Props.C16Sys', 'ZxVerif.Props.C16X'],
+ 'extract': ['HostLoop'],
  'modelled_code': ['rustzx-core/src/emulator/mod.rs (emulate_frames: frame loop, cpu loop, event handling, '
                    'FrameCount/Max, stopwatch time-out)',
                    'rustzx-core/src/zx/controller.rs (passed_frames, reset_frame_counter, frames_count, '
@@ -47,7 +48,12 @@ META = {'title': 'Emulation is deterministic and independent of how the host dri
                'besides Good of the start state), and that machine is tied to the real Emulator by the lock-step correspondence of '
                'C04/C05 (harness/src/sys.rs), not by C16\'s own check; the tie to the real CPU/controller is the metamorphic equation itself, checked on every run on the real '
                'emulator (scenario x driving pairs, every frame boundary, registers/RAM/banks/frame buffers/clock/audio), plus a '
-               'differential check of the loop logic and of read_exact/seek against the compiled model.',
+               'differential check of the loop logic and of read_exact/seek against the compiled model; in addition emulate_frames '
+               'is translated statement by statement from emulator/mod.rs on every run (tools/extract.py, table HostLoop) and the '
+               'interpreter over the translated statements is proved equal to the loop model for every machine, host, fuel and '
+               'stopwatch script (Props/C16X: src_loop_is_model, src_call_is_model), with the stop rules (>= n, strict > limit), the '
+               'order of the event tests, the counter reset and the stopwatch reads pinned, and slicing_irrelevant / '
+               'drivings_agree restated about drivings through the source\'s loop.',
  'level_note': COMMON_NOTE + ' C16 specifically: the main tie is METAMORPHIC ON THE REAL CODE, not a step-by-step model of the '
                'machine: the Lean theorems quantify over an abstract deterministic step function, and "the real emulator is such a '
                'function, with the mixer not read back and no hidden inputs" is established only by testing (same scenario under '
